@@ -348,7 +348,12 @@ def read_items(k: K.Kit, integ: str, parser: str, frames: list, delimited: bool 
         for item in it.drain(res):
             out.append(neutral(it, item))
     elif parser == "parse_jelly_grouped":
-        for sink in it.drain(res):
+        # a streaming consumer: every group is read when it is yielded, before the next one is requested
+        g = it.get_iter(res)
+        while True:
+            ok, sink = it.next_value(g)
+            if not ok:
+                break
             out.append(("group", sink_items(k, integ, sink)))
     elif parser == "parse_jelly_to_graph":
         out = sink_items(k, integ, res)
